@@ -216,19 +216,13 @@ def Y_bond(inp, n, i, slot, k):
     return Y_abstract(inp["l"], A.simp(sv.sub(k, inp["l"])), th, ph)
 
 
-def omega(inp, n, i, j):
-    """normalised weight of neighbour j (0-based) of particle i"""
+def q_spec(inp, n, i, k):
+    """eq. (1): q_lm(n,i) = (1/cn) sum_{j<cn} Y_lm(bond j);   eq. (2): q_lm(n,i) = sum_{j<cn} (w_j / sum_j' w_j') Y_lm(bond j)"""
     cn = nb(n, i, 0)
     if not inp["weighted"]:
-        return sv.div(1, cn)
-    tot = Sum(0, cn, lambda jj: wt(n, i, sv.add(1, jj)))
-    return sv.div(wt(n, i, sv.add(1, j)), tot)
-
-
-def q_spec(inp, n, i, k):
-    """eq. (1)/(2): q_lm(n,i) = sum_{j<cn} omega_j Y_lm(bond j)"""
-    cn = nb(n, i, 0)
-    return Sum(0, cn, lambda j: sv.mul(Y_bond(inp, n, i, A.simp(sv.add(1, j)), k), omega(inp, n, i, j)))
+        return sv.div(Sum(0, cn, lambda j: Y_bond(inp, n, i, A.simp(sv.add(1, j)), k)), cn)
+    tot = Sum(0, cn, lambda jj: wt(n, i, A.simp(sv.add(1, jj))))
+    return Sum(0, cn, lambda j: sv.mul(Y_bond(inp, n, i, A.simp(sv.add(1, j)), k), sv.div(wt(n, i, A.simp(sv.add(1, j))), tot)))
 
 
 def Q_spec(inp, qfn, n, i, k):
@@ -299,9 +293,12 @@ class QlmQlm(Unit):
         inr = sv.and_(sv.cmp(">=", n, 0), sv.cmp("<", n, T), sv.cmp(">=", i, 0), sv.cmp("<", i, N), sv.cmp(">=", k, 0), sv.cmp("<", k, M))
         got = sv.as_cx(small.get((n, i, k)))
         want = sv.as_cx(q_spec(inp, n, i, k))
-        yield "q_lm=weighted-mean-of-Y_lm-over-bonds", sv.implies(inr, sv.and_(sv.cmp("==", got.re, want.re), sv.cmp("==", got.im, want.im)))
+        # weighted: the code sums the whole zero-padded row of the weight array; the definition sums the cn_i weights (zero-tail rule)
+        qopts = {"solver_opts": {"rounds": 4, "ext_tail": True}} if inp["weighted"] else {}
+        yield "q_lm=weighted-mean-of-Y_lm-over-bonds", sv.implies(inr, sv.and_(sv.cmp("==", got.re, want.re), sv.cmp("==", got.im, want.im))), qopts
+        # eq. (3) relates the two returned arrays: Q is the mean of the returned q over the particle and its neighbours
         gotQ = sv.as_cx(large.get((n, i, k)))
-        wantQ = sv.as_cx(Q_spec(inp, lambda a, b, c: q_spec(inp, a, b, c), n, i, k))
+        wantQ = sv.as_cx(Q_spec(inp, lambda a, b, c: small.get((a, b, c)), n, i, k))
         yield "Q_lm=(q_i+sum_j-q_j)/(1+cn)", sv.implies(inr, sv.and_(sv.cmp("==", gotQ.re, wantQ.re), sv.cmp("==", gotQ.im, wantQ.im)))
 
     def replay(self, case, clause, model, seed):
